@@ -296,9 +296,9 @@ func genFirst(r *rand.Rand, mode string, thorough bool) string {
 	rounds := 5
 	if mode == "par" {
 		inst = []int{4, 8, 8, 12}[r.Intn(4)]
-		rounds = 50
+		rounds = 200
 		if thorough {
-			rounds = 200
+			rounds = 400
 		}
 	} else if thorough {
 		inst = 2 + r.Intn(15)
@@ -364,7 +364,7 @@ func genExhaustive() []string {
 }
 
 func gen(r *rand.Rand, tier string) []string {
-	nProv, nGun1, nGun4, nCtl, nPar := 800, 340, 170, 12, 3
+	nProv, nGun1, nGun4, nCtl, nPar := 800, 340, 170, 12, 4
 	if tier == "thorough" {
 		nProv, nGun1, nGun4, nCtl, nPar = 16000, 6000, 3000, 300, 40
 	}
